@@ -108,6 +108,10 @@ def make_state(seed):
     """(scenario dict) a generated definition; S is parsed from it so that carried bodies alias T."""
     ch = Chooser(seed)
     desc = render.gen_desc(ch, "conservative", 1, 4, "d")
+    if ch.chance("untyped", 0.35):
+        # a parameter about which nothing but its name (and prose) is known
+        desc["params"][0]["typ"] = None
+        desc["params"][0]["default"] = None
     kind = ch.weighted("kind", [("function", 3), ("method_in_class", 1), ("class", 4), ("argparse", 2)])
     with_ret = ch.chance("ret", 0.5)
     with_body = ch.chance("body", 0.6 if kind != "class" else 0.3)
